@@ -39,7 +39,7 @@ def _case(draw, tier):
     # cks == "other": the checksum is the true digest of ANOTHER object that is in the store (often under the store's own
     # algorithm, i.e. it is that object's cid)
     other = draw(gen.contents(max_small=24, big=False))
-    return {"cfg": cfg, "contents": [content, other], "entry": entry, "other_prior": draw(st.sampled_from(["unref", "ref", "absent"])),
+    return {"cfg": cfg, "root_via": draw(st.sampled_from([None, None, None, None, None, "symlink"])), "contents": [content, other], "entry": entry, "other_prior": draw(st.sampled_from(["unref", "ref", "absent"])),
             "other_algo_is_store_algo": draw(st.booleans()),
             "prior": draw(st.sampled_from(["absent", "unref", "ref"])),
             "cks": cks, "cks_algo": draw(gen.algo_spelling()), "size": size,
